@@ -45,6 +45,8 @@ func (t *SType) String() string {
 		return "[]" + t.Elem.String()
 	case "map":
 		return "map[" + t.Key.String() + "]" + t.Elem.String()
+	case "set", "arr":
+		return t.Kind + "[" + t.Elem.String() + "]"
 	}
 	if t.Pkg != "" {
 		return t.Pkg + "." + t.Name
@@ -293,6 +295,13 @@ func (p *sparser) typ() *SType {
 		p.next()
 		p.expectOp("]")
 		return &SType{Kind: "slice", Elem: p.typ()}
+	}
+	if p.isID("set") || p.isID("arr") {
+		kind := p.next().text
+		p.expectOp("[")
+		el := p.typ()
+		p.expectOp("]")
+		return &SType{Kind: kind, Elem: el}
 	}
 	if p.isID("map") {
 		p.next()
